@@ -20,9 +20,10 @@ def window_specs(draw, kind, max_k=3, max_radius=5, allow_variable=True, allow_o
         if allow_variable and kind != "multi" and draw(st.sampled_from([False, False, True])):
             sp["window"] = "variable"
             sp["window_power"] = draw(st.sampled_from([0.75, 0.5]))
-        if allow_offset:
+        # each window specification may give or omit each kernel argument on its own (an omitted key means the default)
+        if allow_offset and draw(st.sampled_from([True, True, False])):
             sp["offset"] = draw(st.sampled_from([0, 0, 0, 1, 2]))
-        if allow_normalize:
+        if allow_normalize and draw(st.sampled_from([True, True, False])):
             sp["normalize"] = draw(st.booleans())
         if use_power:
             sp["power"] = draw(st.sampled_from([0.5, 0.9, 0.25]))
